@@ -66,6 +66,25 @@ def role_of(prog, body, e, root):
                 is_new = True
             elif x[1] == first_val and last > first_val:
                 is_best = True
+            elif x[1] == first_val and last == first_val:
+                # the single value parameter of a closure handed to and_then / map / map_or on R: it is (the payload of) R
+                site = prog.closure_site(body.key)
+                if site is not None:
+                    parent = site[0]
+                    for cbb, ct in parent.calls():
+                        if callee_name(ct) in ("and_then", "map", "map_or", "map_or_else", "then"):
+                            cargs = parent.call_arg_exprs(cbb)
+                            if any(isinstance(strip(a), tuple) and strip(a)[:3] == ("agg", "closure", body.key) for a in cargs[1:]):
+                                r_ = role_of(prog, parent, cargs[0], root)
+                                is_new = is_new or r_ == "new"
+                                is_best = is_best or r_ == "best"
+        if x[0] == "upvar" and body.is_closure:
+            # captured from the enclosing closure (the fold's own element / accumulator)
+            pb_, pe_ = up(prog, body, x)
+            if pb_ is not body:
+                r_ = role_of(prog, pb_, pe_, root)
+                is_new = is_new or r_ == "new"
+                is_best = is_best or r_ == "best"
         if x[0] == "phi":
             is_best = True
     if is_new and not is_best:
@@ -408,6 +427,8 @@ def rule_r7_plain(ctx, prog, rule="R7"):
                     continue
                 L = payload_local(root, d)
                 in_loop = False
+                if L is not None and any(sb is root and list(root.defs_of(L)) == [(sbb, "term")] for (sb, sbb, _e, _d) in good):
+                    continue          # `let r = self.fold(..); r` – the scan call's own result, moved
                 if L is not None:
                     for (sb, sbb, _e, _d) in good:
                         if sb is not root:
@@ -439,6 +460,54 @@ def rule_r7_plain(ctx, prog, rule="R7"):
                             x = strip(x[1])
                         if isinstance(x, tuple) and x[0] == "call" and x[1] == "next" and fld is not None:
                             got[fld] = s["dst"]["l"]
+                        # the pair kept in one tuple variable: `best = (index, value)` assigned from item.0 / item.1 of one item
+                        if s["rv"]["k"] == "agg" and not s["rv"].get("adt") and not s["rv"].get("closure") and len(s["rv"]["fields"]) == 2 and \
+                                isinstance(e, tuple) and e[0] == "agg":
+                            flds = []
+                            for fe in e[3]:
+                                x = strip(fe)
+                                fld = None
+                                while isinstance(x, tuple) and x[0] in ("field", "downcast"):
+                                    if x[0] == "field" and fld is None and x[2] in ("0", "1") and isinstance(strip(x[1]), tuple) and strip(x[1])[0] == "field":
+                                        fld = x[2]
+                                    x = strip(x[1])
+                                flds.append(fld if (isinstance(x, tuple) and x[0] == "call" and x[1] == "next") else None)
+                            if flds == ["0", "1"]:
+                                pair_local = s["dst"]["l"]
+                                got = {"0": pair_local, "1": pair_local}
+                                tuple_mode = True
+                if set(got) == {"0", "1"} and got["0"] == got["1"]:
+                    # tuple form: returned = best.0 ; seed = (zeros index, first())
+                    from .rules_terms import unwrap_try
+                    from .facts import walk as _walk
+                    L = got["0"]
+                    ok = True
+                    detail = "index and value kept together in the tuple `%s`, replaced as a whole by one item" % b.local_name(L)
+                    n_ok = n_idx = 0
+                    for d in b.reaching_defs(0, b.exits()[0], "term"):
+                        e = strip(b.def_expr(0, d))
+                        if isinstance(e, tuple) and e[0] == "agg" and e[2] == "Ok":
+                            n_ok += 1
+                            inner = strip(e[3][0])
+                            if isinstance(inner, tuple) and inner[0] == "field" and inner[2] == "0" and isinstance(strip(inner[1]), tuple) and \
+                                    strip(inner[1])[0] == "phi" and strip(inner[1])[1] == L:
+                                n_idx += 1
+                    if not (n_idx >= 1 and n_idx == n_ok):
+                        ok = False
+                        detail = "the returned value is not the index component of the running (index, value) pair"
+                    for dd in b.defs_of(L):
+                        if dd[0] == "entry":
+                            continue
+                        e0 = strip(b.def_expr(L, dd))
+                        if any(isinstance(x_, tuple) and x_[0] == "call" and x_[1] == "next" for x_ in _walk(e0)):
+                            continue
+                        if not (isinstance(e0, tuple) and e0[0] == "agg" and len(e0[3]) == 2):
+                            continue
+                        seed = unwrap_try(e0[3][1])
+                        if not (isinstance(seed, tuple) and seed[0] == "call" and seed[1] == "first" and strip(seed[3][0])[:2] == ("param", 1)):
+                            ok = False
+                            detail = "the running value is seeded with `%s`, not with self.first(): it does not belong to the seed index" % fmt(seed)[:80]
+                    break
                 if set(got) == {"0", "1"}:
                     # the returned value is the index variable
                     r = strip(b.return_expr())
